@@ -19,7 +19,7 @@ def run(sid):
         shutil.copy(os.path.join(HERE, "known_findings.json"), d + "/verif")
         hits = {}
         for prop in props:
-            c = subprocess.run([os.path.join(HERE, "bin/slockcheck"), "-repo", d + "/repo", "-verif", d + "/verif", "-property", prop], env=ENV, capture_output=True, text=True)
+            c = subprocess.run([os.environ.get("SLOCKCHECK_BIN", os.path.join(HERE, "bin/slockcheck")), "-repo", d + "/repo", "-verif", d + "/verif", "-property", prop], env=ENV, capture_output=True, text=True)
             if c.returncode == 1:
                 rules = sorted(set(re.findall(r"\[(C\d+/R\w+)\]", c.stdout)))
                 hits[prop] = rules
